@@ -190,6 +190,8 @@ pub struct XEnc {
     /// members of a shared formula repeat the master's text inside their <f t="shared" si=..> element (ECMA-376 18.3.1.40 allows it;
     /// the member's formula is still the master's, moved)
     pub shared_members_carry_text: bool,
+    /// Relationship elements written as start tag + end tag; the optional count attributes (mergeCells, tableColumns, sst) left out
+    pub lean_markup: bool,
     /// sheet parts one folder deeper (xl/worksheets/data/sheetN.xml)
     pub sheet_subfolder: bool,
     /// table parts named xl/tbl/tN.xml instead of xl/tables/tableN.xml
@@ -207,7 +209,7 @@ impl Default for XEnc {
     fn default() -> Self {
         XEnc {
             prefix: false, row_r: RMode::Explicit, cell_r: RMode::Explicit, dim: DimMode::Exact, target: TargetMode::Relative,
-            upper_parts: false, upper_root: false, apply_nf: 0, method: Method::Deflated, explicit_t_n: false, empty_rows: false, reorder_members: false, rid_shuffle: false, indent: false, rels_target_first: false, rows_never_r: false, split_text_nodes: false, comments: false, extras: false, bool_words: false, sst_count_refs: false, numfmt_code_first: false, shared_members_carry_text: false, cell_attrs_reversed: false, odd_table_part_names: false, sheet_subfolder: false,
+            upper_parts: false, upper_root: false, apply_nf: 0, method: Method::Deflated, explicit_t_n: false, empty_rows: false, reorder_members: false, rid_shuffle: false, indent: false, rels_target_first: false, rows_never_r: false, split_text_nodes: false, comments: false, extras: false, bool_words: false, sst_count_refs: false, numfmt_code_first: false, shared_members_carry_text: false, cell_attrs_reversed: false, odd_table_part_names: false, sheet_subfolder: false, lean_markup: false,
         }
     }
 }
@@ -386,7 +388,7 @@ pub fn sheet_xml(sh: &XSheet, enc: &XEnc, table_rids: &[String]) -> String {
     o.push_str(&tg.c("sheetData"));
     if enc.extras { o.push_str(&format!("{} sheet=\"1\" objects=\"1\"/>{} ref=\"A1:B2\"/>", tg.o("sheetProtection"), tg.o("autoFilter"))); }
     if !sh.merges.is_empty() {
-        o.push_str(&format!("{} count=\"{}\">", tg.o("mergeCells"), sh.merges.len()));
+        if enc.lean_markup { o.push_str(&format!("{}>", tg.o("mergeCells"))); } else { o.push_str(&format!("{} count=\"{}\">", tg.o("mergeCells"), sh.merges.len())); }
         for m in &sh.merges { o.push_str(&format!("{} ref=\"{}\"/>", tg.o("mergeCell"), m)); }
         o.push_str(&tg.c("mergeCells"));
     }
@@ -542,6 +544,11 @@ pub fn parts(b: &XBook, enc: &XEnc) -> Vec<(String, Vec<u8>)> {
                 tail.push((format!("xl/{part}"), table_xml(t, table_no)));
                 rids.push(rid);
             }
+            // a sheet with an XML-mapped cell carries a relationship whose type starts like the table type: tableSingleCells
+            if enc.extras {
+                srel.push_str(&format!("<Relationship Id=\"rId{}\" Type=\"http://schemas.openxmlformats.org/officeDocument/2006/relationships/tableSingleCells\" Target=\"{}../tables/tableSingleCells{}.xml\"/>", rids.len() + 1, if enc.sheet_subfolder { "../" } else { "" }, i + 1));
+                tail.push((format!("xl/tables/tableSingleCells{}.xml", i + 1), format!("<?xml version=\"1.0\" encoding=\"UTF-8\" standalone=\"yes\"?>\n<singleXmlCells xmlns=\"{NS_MAIN}\"><singleXmlCell id=\"9\" r=\"A1\" connectionId=\"0\"><xmlCellPr id=\"1\" uniqueName=\"n\"><xmlPr mapId=\"1\" xpath=\"/r/n\" xmlDataType=\"string\"/></xmlCellPr></singleXmlCell></singleXmlCells>")));
+            }
             srel.push_str("</Relationships>");
             tail.push((format!("xl/{dir}/_rels/sheet{}.xml.rels", i + 1), srel));
         }
@@ -583,7 +590,7 @@ pub fn parts(b: &XBook, enc: &XEnc) -> Vec<(String, Vec<u8>)> {
         out.push_str(rest);
         out
     };
-    let to_b = |v: Vec<(String, String)>| v.into_iter().map(|(a, b)| { let b = reorder_rels(&a, b); let b = if enc.comments { comment_xml(&b) } else { b }; (a, if enc.indent { indent_xml(&b) } else { b }.into_bytes()) }).collect::<Vec<_>>();
+    let to_b = |v: Vec<(String, String)>| v.into_iter().map(|(a, b)| { let b = reorder_rels(&a, b); let b = if enc.lean_markup && a.ends_with(".rels") { b.replace("\"/>", "\"></Relationship>") } else { b }; let b = if enc.comments { comment_xml(&b) } else { b }; (a, if enc.indent { indent_xml(&b) } else { b }.into_bytes()) }).collect::<Vec<_>>();
     all.extend(to_b(head));
     if enc.reorder_members {
         all.extend(to_b(sheet_parts));
